@@ -19,6 +19,7 @@ ASSUMPTIONS = [
     "storage, 1-element index vectors/ranges/masks, x[:,:]) are advisory when they yield an error",
 ]
 TRIVIAL_TAGS = ["error", "empty"]
+STALL = 120.0   # seconds without output before a harness process counts as hung (the machine may be heavily loaded)
 
 SHAPES = [(r, c) for r in range(1, 5) for c in range(1, 5)] + [(1, 7), (6, 1), (5, 3), (2, 9)]
 FORMS = ["s", "v", "r", "a", "b"]
